@@ -15,6 +15,10 @@ FIELDS = "length|start|num|begin_allocated_memory|end_allocated_memory|allocated
 
 # common surface-syntax rules for every VectorWithOffset member function (count None: any number of times)
 COMMON = [
+    # container indexing through the offset base pointer: num[e] -> VWO_AT(obj, e) == *(begin + off + (e - start)), the
+    # same address for every e (in or out of range); avoids CBMC's unreliable handling of out-of-block base pointers
+    (r"\b(v|il|iv)\.num\[([^\]]+)\]", r"VWO_AT(\1, \2)", None),
+    (r"(?<![\w>.])num\[([^\]]+)\]", r"VWO_AT(self, \1)", None),
     (r"\bthis->", "self->", None),
     (r"\breturn \*this;", "return self;", None),
     # no-argument member calls:  obj.f() / obj->f() / f()
@@ -149,6 +153,12 @@ def jobs(tier, gen_dir):
             out.append(Job("c11/%s/%s" % (tt.replace(" ", "_"), kern), HARNESS, "h_" + kern, enforce=kern, replace=repl,
                            loop_contracts=lc, defines=defs, flags=checks, timeout=300, params={"T": tt}, kernels=[kern],
                            min_obligations=3, no_base_flags=True, replay="vwo"))
+            if kern.endswith("_assign"):
+                d2 = dict(defs)
+                d2["SELF_EMPTY"] = None
+                out.append(Job("c11/%s/%s/self_empty" % (tt.replace(" ", "_"), kern), HARNESS, "h_" + kern, enforce=kern,
+                               loop_contracts=lc, defines=d2, flags=checks, timeout=300, params={"T": tt, "self": "empty"},
+                               kernels=[kern], min_obligations=3, no_base_flags=True, replay="vwo"))
         # vacuity canaries: contract + `ensures(false)` must fail
         for kern in ("K_vwo_plus_assign", "K_vwo_at", "K_vwo_set_offset"):
             if t != types[0]:
